@@ -39,8 +39,10 @@ class C05(Check):
         descs = []
         shapes = G.grid_shapes()
         if not thorough:
-            rng.shuffle(shapes)
-            shapes = shapes[:160]
+            wide = [sh for sh in shapes if len(sh["out_tagged"]) >= 16 and sh["ring"] == 1]
+            rest = [sh for sh in shapes if sh not in wide]
+            rng.shuffle(rest)
+            shapes = wide + rest[:160]
         for sh in shapes:
             descs.append((G.tx_desc(rng, **sh), "grid-type%d-v%d" % (sh["rct_type"], sh["version"])))
         for _ in range(400 if not thorough else 6000):
